@@ -13,8 +13,10 @@ pub mod c08;
 pub mod c09;
 pub mod c10;
 pub mod c12;
+pub mod c13;
 pub mod c15;
 pub mod c17;
+pub mod c18;
 pub mod common;
 
 #[derive(Clone, Copy, PartialEq, Eq, Debug)]
@@ -48,7 +50,7 @@ pub struct CheckDef {
 }
 
 pub fn all() -> Vec<CheckDef> {
-    vec![c01::def(), c02::def(), c03::def(), c06::def(), c07::def(), c08::def(), c09::def(), c10::def(), c12::def(), c15::def(), c17::def()]
+    vec![c01::def(), c02::def(), c03::def(), c06::def(), c07::def(), c08::def(), c09::def(), c10::def(), c12::def(), c13::def(), c15::def(), c17::def(), c18::def()]
 }
 
 pub fn get(id: &str) -> Option<CheckDef> {
